@@ -26,8 +26,9 @@ Section Safety.
   Qed.
 
   Definition trunc_final (s : st) (o : Z) (d : disk) : Prop :=
-    exists segs, meq d (mkDisk segs [] (d_scr (s_disk s)) (d_hw (s_disk s)) (cache_clear_latest (d_ep (s_disk s)) o)) /\
-      segs <> [] /\ (forall m, In m segs -> m_idx m = Some (m_recs m)) /\ Image s (DTrunc o) (K o) (mkDisk segs [] (d_scr (s_disk s)) (d_hw (s_disk s)) (cache_clear_latest (d_ep (s_disk s)) o)).
+    exists segs c, meq d (mkDisk segs [] (d_scr (s_disk s)) (d_hw (s_disk s)) c) /\
+      segs <> [] /\ (forall m, In m segs -> m_idx m = Some (m_recs m)) /\ cbound c (m_next (last segs dummy_m)) /\
+      Image s (DTrunc o) (K o) (mkDisk segs [] (d_scr (s_disk s)) (d_hw (s_disk s)) c).
 
   Lemma trunc_op_seq s o : Good s ->
     seq (Image s (DTrunc o) (K o)) (at_ (s_disk s)) (trunc_effs fixed (s_disk s) o)
@@ -40,20 +41,27 @@ Section Safety.
     destruct (find_segment_some _ _ _ _ Hfind) as (preS & postS & E & Hlen & Hlt & Hpre).
     unfold segs_of in E. destruct (map_split3 _ _ _ _ _ E) as (pre & t & later & Hshape & E1 & E2 & E3). subst preS st postS.
     rewrite map_length in Hlen.
-    pose proof (trunc_seq s G o pre t later Hshape Hlt Hpre i (eq_sym Hlen) Hfind) as Hseq.
+    destruct (trunc_seq s G o pre t later Hshape Hlt Hpre i (eq_sym Hlen) Hfind) as (Hseq & Hne & Hcb).
     eapply seq_conseq; [intros d Hd; exact Hd| |exact Hseq].
     intros d Hd. right. destruct (Hseq (s_disk s) (meq_refl _)) as [Hall Hfin].
-    exists (final_segs o pre t i). split; [exact Hd|].
-    assert (Himg : Image s (DTrunc o) (K o) (mk s (final_segs o pre t i) [] (cache_clear_latest (d_ep (s_disk s)) o))).
+    exists (final_segs o pre t i), (cfin s o t i). split; [exact Hd|].
+    assert (Himg : Image s (DTrunc o) (K o) (mk s (final_segs o pre t i) [] (cfin s o t i))).
     { apply (image_main s o (run_effs (s_disk s) (trunc_effs fixed (s_disk s) o)) _ Hfin).
       specialize (Hall (length (trunc_effs fixed (s_disk s) o))). rewrite firstn_all in Hall. exact Hall. }
-    split; [|split; [|exact Himg]].
-    - unfold final_segs. destruct ((m_base t =? o) && negb (Nat.eqb i 0)) eqn:Ec; [|destruct pre; discriminate].
-      apply andb_true_iff in Ec. destruct Ec as [_ Ec]. destruct pre; [|discriminate]. cbn in Hlen. subst i. discriminate.
-    - intros m Hm. unfold final_segs in Hm.
+    assert (Hidx : forall m, In m (final_segs o pre t i) -> m_idx m = Some (m_recs m)).
+    { intros m Hm. unfold final_segs in Hm.
       assert (Hp : forall m, In m pre -> m_idx m = Some (m_recs m)) by (intros m' Hm'; apply (g_idx _ G); rewrite Hshape; apply in_or_app; left; exact Hm').
       destruct ((m_base t =? o) && negb (Nat.eqb i 0)); [apply Hp; exact Hm|].
-      apply in_app_or in Hm. destruct Hm as [Hm|[<-|[]]]; [apply Hp; exact Hm|reflexivity].
+      apply in_app_or in Hm. destruct Hm as [Hm|[<-|[]]]; [apply Hp; exact Hm|reflexivity]. }
+    split; [exact Hne|]. split; [exact Hidx|]. split; [|exact Himg].
+    (* the index-based next offset of the last segment is its true next offset *)
+    destruct (exists_last Hne) as (fl & fx & Ef). rewrite Ef, last_last in *.
+    assert (Hin : In fx (final_segs o pre t i)) by (rewrite Ef; apply in_or_app; right; left; reflexivity).
+    destruct Himg as (M & _ & _). pose proof (mi_wf _ _ M) as Hw. unfold segs_of in Hw. cbn [mk d_segs] in Hw.
+    assert (Hfx : In fx (fl ++ [fx])) by (apply in_or_app; right; left; reflexivity).
+    rewrite m_next_consistent; [exact Hcb|apply Hidx; exact Hfx| |].
+    - apply (WF_base_nonneg _ (m_seg fx) Hw). apply in_map. exact Hfx.
+    - apply (wf_sorted _ Hw (m_seg fx)). apply in_map. exact Hfx.
   Qed.
 
   (* ---- what an operation may remove, and what it must be given ---- *)
@@ -69,7 +77,6 @@ Section Safety.
     | DCreate => False                    (* only commitlog.New on an empty directory: `init` *)
     | DAppend ms => ms <> [] /\ ep_mono (cache_latest_epoch (d_ep (s_disk s))) (number (next_of s) ms)
     | DASet rs => rs <> [] /\ sorted_from (next_of s) rs /\ ep_mono (cache_latest_epoch (d_ep (s_disk s))) rs
-    | DTrunc t => forall s', exec key_of fixed p s (DTrunc t) = Some s' -> cbound (d_ep (s_disk s')) (next_of s')
     | _ => True
     end.
 
@@ -105,13 +112,10 @@ Section Safety.
     - (* Truncate *)
       unfold script, exec, script. eexists. split; [reflexivity|].
       destruct (seq_from_eq _ _ _ _ (trunc_op_seq s t G)) as [Hall Hfin]. split; [exact Hall|].
-      intros s' Es'. pose proof (Hok s') as Hguard. unfold exec, script in Hguard. specialize (Hguard Es'). injection Es' as <-.
-      split; [|cbn; lia]. destruct Hfin as [Hat|(segs & Hm & Hne & Hidx & Himg)].
+      intros s' [= <-]. split; [|cbn; lia]. destruct Hfin as [Hat|(segs & c & Hm & Hne & Hidx & Hcb & Himg)].
       + pose proof (good_meq s _ G (meq_sym _ _ Hat)) as G'. exact G'.
-      + set (dF := mkDisk segs [] (d_scr (s_disk s)) (d_hw (s_disk s)) (cache_clear_latest (d_ep (s_disk s)) t)) in *.
-        assert (GF : Good (mkSt dF (s_hw s))).
-        { apply mid_good; [apply Himg|exact Hne|exact Hidx|reflexivity|].
-          destruct Hm as (A & _ & _ & D). unfold next_of in Hguard. cbn [s_disk] in Hguard. unfold d_active in *. rewrite A, D in Hguard. exact Hguard. }
+      + set (dF := mkDisk segs [] (d_scr (s_disk s)) (d_hw (s_disk s)) c) in *.
+        assert (GF : Good (mkSt dF (s_hw s))) by (apply mid_good; [apply Himg|exact Hne|exact Hidx|reflexivity|exact Hcb]).
         apply (good_meq _ _ GF). apply meq_sym. exact Hm.
     - (* Clean *)
       unfold script, exec, script. eexists. split; [reflexivity|].
